@@ -160,6 +160,9 @@ func (p *Prog) computeDerived() map[derivedKey]*Sym {
 			if s.Op == "param" {
 				return s.V == ssa.Value(ctor.Params[0])
 			}
+			if par := spilledParamOf(s); par != nil {
+				return par == ctor.Params[0]
+			}
 			if s.Op == "un" && s.Name == "*" && len(s.Args) == 1 {
 				return false
 			}
@@ -437,4 +440,43 @@ func (p *Prog) virtualFieldStores(fn *ssa.Function, role string) []ssa.Value {
 		}
 	}
 	return out
+}
+
+// spilledParamOf: s denotes a local to which a parameter was spilled so that its fields can be
+// addressed - written once, with the parameter, and otherwise only read; returns that parameter.
+func spilledParamOf(s *Sym) *ssa.Parameter {
+	al, isAl := s.V.(*ssa.Alloc)
+	if !isAl || s.Op != "alloc" || al.Referrers() == nil {
+		return nil
+	}
+	var par *ssa.Parameter
+	stores, readOnly := 0, true
+	var scanRO func(addr ssa.Value)
+	scanRO = func(addr ssa.Value) {
+		for _, ref := range *addr.Referrers() {
+			switch r := ref.(type) {
+			case *ssa.DebugRef:
+			case *ssa.UnOp:
+				if r.Op != token.MUL {
+					readOnly = false
+				}
+			case *ssa.FieldAddr:
+				scanRO(r)
+			case *ssa.Store:
+				if pp, isPar := r.Val.(*ssa.Parameter); isPar && r.Addr == ssa.Value(al) {
+					par = pp
+					stores++
+				} else {
+					readOnly = false
+				}
+			default:
+				readOnly = false
+			}
+		}
+	}
+	scanRO(al)
+	if readOnly && stores == 1 {
+		return par
+	}
+	return nil
 }
